@@ -8,10 +8,11 @@ import (
 )
 
 // (America/Chicago and Asia/Shanghai share the abbreviation CST with different offsets)
-var c17Zones = []string{"", "UTC", "+05:30", "-08:00", "America/New_York", "Australia/Lord_Howe", "America/Chicago", "Asia/Shanghai"}
+var c17Zones = []string{"", "UTC", "+05:30", "-08:00", "America/New_York", "Australia/Lord_Howe", "America/Chicago", "Asia/Shanghai", "Australia/Sydney"}
 
 func c17Strings(thorough bool) []string {
-	dates := []string{"0001-01-01", "1999-12-31", "2000-02-29", "2015-08-02", "2015-11-01", "2015-03-08", "9999-12-31"}
+	// (2015-10-04 / 2015-04-05: DST transitions of Australia/Sydney and Lord_Howe; 2015-11-01 / 03-08: New York)
+	dates := []string{"0001-01-01", "1999-12-31", "2000-02-29", "2015-08-02", "2015-11-01", "2015-03-08", "2015-10-04", "2015-04-05", "9999-12-31"}
 	// (02:30-06:30 fall into the hours around the DST transitions of 2015-03-08 / 2015-11-01 in New York)
 	times := []string{"00:00:00", "01:30:00", "02:30:00", "03:30:00", "06:30:00", "12:34:56", "23:59:59"}
 	fracs := []string{"", ".5", ".12", ".123", ".1234", ".12345", ".123456", ".1234567", ".12345678", ".123456789", ".999999", ".9999995", ".9999999", ".0000005", ".999"}
@@ -90,7 +91,7 @@ type c17Val struct{ s, m string } // string and the method that types it
 
 func c17CmpGrid() []c17Val {
 	var out []c17Val
-	for _, d := range []string{"2015-08-01", "2015-08-02", "2015-08-03", "2015-11-01"} {
+	for _, d := range []string{"2015-08-01", "2015-08-02", "2015-08-03", "2015-11-01", "2015-10-04"} {
 		out = append(out, c17Val{d, "date"})
 	}
 	for _, t := range []string{"00:00:00", "12:00:00", "12:00:00.5", "23:59:59"} {
@@ -99,11 +100,11 @@ func c17CmpGrid() []c17Val {
 	for _, t := range []string{"12:00:00+00", "13:00:00+01", "12:00:00+01", "06:30:00-05:30", "12:00:00-04", "23:59:59+14"} {
 		out = append(out, c17Val{t, "time_tz"})
 	}
-	for _, t := range []string{"2015-08-02T00:00:00", "2015-08-01T20:00:00", "2015-08-02T04:00:00", "2015-08-02T12:00:00", "2015-11-01T01:30:00", "2015-08-01T18:30:00", "2015-08-02T05:30:00"} {
+	for _, t := range []string{"2015-08-02T00:00:00", "2015-08-01T20:00:00", "2015-08-02T04:00:00", "2015-08-02T12:00:00", "2015-11-01T01:30:00", "2015-08-01T18:30:00", "2015-08-02T05:30:00", "2015-10-04T00:00:00"} {
 		out = append(out, c17Val{t, "timestamp"})
 	}
 	for _, t := range []string{"2015-08-02T00:00:00+00:00", "2015-08-02T01:00:00+01:00", "2015-08-01T20:00:00-04:00", "2015-08-02T00:00:00-04:00", "2015-08-02T04:00:00+00:00",
-		"2015-08-02T00:00:00+05:30", "2015-08-01T18:30:00+00:00", "2015-08-02T08:00:00+00:00", "2015-08-02T00:00:00-08:00", "2015-11-01T05:30:00+00:00", "2015-11-01T06:30:00+00:00"} {
+		"2015-08-02T00:00:00+05:30", "2015-08-01T18:30:00+00:00", "2015-08-02T08:00:00+00:00", "2015-08-02T00:00:00-08:00", "2015-11-01T05:30:00+00:00", "2015-11-01T06:30:00+00:00", "2015-10-03T14:00:00+00:00", "2015-10-03T13:00:00+00:00"} {
 		out = append(out, c17Val{t, "timestamp_tz"})
 	}
 	return out
@@ -235,7 +236,7 @@ func c17Triple(c Case) *Failure {
 }
 
 func runC17(r *Run) {
-	r.Rule("a grid of datetime strings (5 kinds x 7 dates incl. year/day boundaries and New York DST days x 4 times x 8-15 fractions of 0..9 digits incl. rounding carries x 7-12 offset spellings -12..+14 incl. half hours, Z, +hh and +hh:mm x T/space, plus 28 unrecognised forms) x six methods x precisions 0..7 and absent x {WithTZ, not} x context zones {none, UTC, +05:30, -08:00, America/New_York, Australia/Lord_Howe} against the reference civil-time model (recognised forms, resulting type, cast matrix with the tz-required error, rounding to min(p,6)); all ordered pairs of a 32-value comparison grid x 6 operators x zones: reference order, antisymmetry, comparison = comparison after explicit casts to the common type, time vs date/timestamp unknown; all triples for transitivity; non-trivial = reference yields items or an error")
+	r.Rule("a grid of datetime strings (5 kinds x 9 dates incl. year/day boundaries and the DST transition days of New York and Sydney/Lord Howe x 7 times x 8-15 fractions of 0..9 digits incl. rounding carries x 7-12 offset spellings -12..+14 incl. half hours, Z, +hh and +hh:mm x T/space, plus 28 unrecognised forms) x six methods x precisions 0..7 and absent x {WithTZ, not} x context zones {none, UTC, +05:30, -08:00, America/New_York, Australia/Lord_Howe, America/Chicago, Asia/Shanghai, Australia/Sydney} against the reference civil-time model (recognised forms, resulting type, cast matrix with the tz-required error, rounding to min(p,6)); all ordered pairs of a 37-value comparison grid (incl. the Sydney/Lord Howe transition day 2015-10-04) x 6 operators x zones: reference order, antisymmetry, comparison = comparison after explicit casts to the common type, time vs date/timestamp unknown; all triples for transitivity; non-trivial = reference yields items or an error")
 	strs := c17Strings(r.Thorough())
 	paths := c17Paths()
 	r.Bound("datetime_strings", len(strs))
